@@ -29,11 +29,18 @@ theorem casLoop_c0 {e : Ev} {c : Hp.St} {pc : Pc} {b : Bool} {cell : Nat} {a : I
       · rw [guard_ok] at h; obtain ⟨_, h⟩ := h; cases h; exact .inr rfl
       · rw [guard_ok] at h; obtain ⟨_, h⟩ := h; cases h; exact .inl ⟨rfl, rfl, rfl⟩
 
-theorem evStep_ghost {k : Nat} {c : Hp.St} {cuts : Cuts} {e : Ev} {pc : Pc} {c' : Hp.St} {pc' : Pc}
+/-- skipping a no-op `addHot` does not change the cut a collector carries -/
+theorem cutOfPc_skipPc (k : Nat) (e : Ev) (pc : Pc) : cutOfPc (skipPc k e pc) = cutOfPc pc := by
+  rcases skipTask_cases k (parseLoc e.loc) pc.task with hs | ⟨cold, ov, cell, todo, taken, S, ht, hs, _⟩
+  · rw [skipPc_of_task_eq hs]
+  · simp only [cutOfPc, skipPc, hs]; simp [ht, cutOf]
+
+/-- what the check of one event does to the ghost data (`c0` is kept) -/
+theorem evStep1_ghost {k : Nat} {c : Hp.St} {cuts : Cuts} {e : Ev} {pc : Pc} {c' : Hp.St} {pc' : Pc}
     {rv : Option String} {cuts' : Cuts}
-    (h : evStep k c cuts e pc = .ok ((c', pc', rv), cuts')) :
+    (h : evStep1 k c cuts e pc = .ok ((c', pc', rv), cuts')) :
     pc'.c0 = pc.c0 ∧ GhostEff k c c' pc pc' cuts cuts' := by
-  unfold evStep at h
+  unfold evStep1 at h
   simp only at h
   split at h
   · rw [plainR_ok, guard_ok] at h
@@ -43,7 +50,8 @@ theorem evStep_ghost {k : Nat} {c : Hp.St} {cuts : Cuts} {e : Ev} {pc : Pc} {c' 
     rw [plainR_ok, guard_ok] at h
     obtain ⟨⟨_, h⟩, hc⟩ := h; cases h
     exact ⟨rfl, .inl ⟨by simp [cutOfPc, ht, cutOf], hc, rfl⟩⟩
-  · next o b cell a rest ht =>
+  · next o b p l ht =>
+    simp only [obsEntry] at h
     split at h
     · rw [plainR_ok, guard_ok] at h
       obtain ⟨⟨_, h⟩, hc⟩ := h; cases h
@@ -120,6 +128,17 @@ theorem evStep_ghost {k : Nat} {c : Hp.St} {cuts : Cuts} {e : Ev} {pc : Pc} {c' 
       exact ⟨rfl, .inr (.inr ⟨S, ov, taken, by simp [cutOfPc, ht, cutOf], rfl, rfl, rfl⟩)⟩
   · cases h
 
+
+/-- what one accepted event does to the ghost data (`c0` is kept); a skipped `addHot` of 0 has no ghost effect -/
+theorem evStep_ghost {k : Nat} {c : Hp.St} {cuts : Cuts} {e : Ev} {pc : Pc} {c' : Hp.St} {pc' : Pc}
+    {rv : Option String} {cuts' : Cuts}
+    (h : evStep k c cuts e pc = .ok ((c', pc', rv), cuts')) :
+    pc'.c0 = pc.c0 ∧ GhostEff k c c' pc pc' cuts cuts' := by
+  unfold evStep at h
+  have h1 := evStep1_ghost h
+  have hc : (skipPc k e pc).c0 = pc.c0 := rfl
+  simp only [GhostEff, cutOfPc_skipPc, hc] at h1
+  exact h1
 
 /-- the shape of an accepted item: an event of an open call, or a call / return mark -/
 theorem item_shape {s s' : St} {it : Item} (h : item s it = .ok s') :
@@ -210,12 +229,14 @@ theorem planCall_nocut {s : St} {op : String} {pc : Pc} (h : planCall s op = .ok
 theorem evStep_claimed {k : Nat} {c : Hp.St} {cuts : Cuts} {e : Ev} {pc : Pc} {c' : Hp.St} {pc' : Pc}
     {rv : Option String} {cuts' : Cuts}
     (h : evStep k c cuts e pc = .ok ((c', pc', rv), cuts')) : c.claimed <+: c'.claimed := by
-  rcases evStep_refines h [] [] with he | hs
+  rcases evStep_refines h [] [] with he | hs | ⟨ts, hs1, hs2⟩
   · have : (withTasks c' ([] ++ pc'.task.toList ++ [])).claimed = (withTasks c ([] ++ pc.task.toList ++ [])).claimed :=
       congrArg Hp.St.claimed he
     simp only [withTasks] at this
     rw [this]; exact List.prefix_refl _
   · have := claimed_mono hs
+    simpa [withTasks] using this
+  · have := claimed_mono hs2
     simpa [withTasks] using this
 
 /-- the real-time / value invariant of the replay machine -/
